@@ -271,4 +271,161 @@ theorem sim_evalInfixOp {σ : Sh} {s t : St} (hR : StR σ s t) (op : String) (le
   · exact SimAt.pure hR (or_ren σ left right)
   · exact sim_infixDefault hR op left right
 
+/-! ### first / rest / len / index / prefix -/
+
+@[simp] theorem objLen_ren (σ : Sh) (o : Obj) : objLen (ren σ o) = objLen o := by
+  cases o <;> simp [ren, objLen]
+
+theorem renP_drop (σ : Sh) (l : List (Obj × Obj)) (n : Nat) : renP σ (l.drop n) = (renP σ l).drop n := by
+  simp [renP_eq, List.map_drop]
+theorem renP_take (σ : Sh) (l : List (Obj × Obj)) (n : Nat) : renP σ (l.take n) = (renP σ l).take n := by
+  simp [renP_eq, List.map_take]
+theorem renL_drop (σ : Sh) (l : List Obj) (n : Nat) : renL σ (l.drop n) = (renL σ l).drop n := by
+  simp [renL_eq, List.map_drop]
+theorem renL_take (σ : Sh) (l : List Obj) (n : Nat) : renL σ (l.take n) = (renL σ l).take n := by
+  simp [renL_eq, List.map_take]
+
+theorem sim_objFirst {σ : Sh} {s t : St} (hR : StR σ s t) (o : Obj) :
+    SimAt σ (objFirst (ren σ o)) (objFirst o) s t (QO σ) := by
+  cases o with
+  | array els => cases els <;> exact SimAt.pure hR rfl
+  | map b kvs =>
+    cases kvs with
+    | nil => exact SimAt.pure hR rfl
+    | cons kv rest => obtain ⟨k, v⟩ := kv; exact SimAt.pure hR rfl
+  | str x =>
+    cases x with
+    | nil => exact SimAt.pure hR rfl
+    | cons c rest =>
+      simp only [ren]
+      unfold objFirst
+      refine SimAt.ite (fun _ => SimAt.pure hR rfl) (fun _ => ?_)
+      exact SimAt.ite (fun _ => SimAt.stop hR) (fun _ => SimAt.stop hR)
+  | func f =>
+    refine SimAt.pure hR ?_
+    simp only [QO, ren, renFn, newArray]
+    congr 1
+    rw [renL_eq]
+    simp only [List.map_map]
+    rfl
+  | _ => all_goals exact SimAt.pure hR rfl
+
+theorem sim_objRest {σ : Sh} {s t : St} (hR : StR σ s t) (o : Obj) :
+    SimAt σ (objRest (ren σ o)) (objRest o) s t (QO σ) := by
+  cases o with
+  | array els =>
+    simp only [ren]
+    unfold objRest
+    dsimp only
+    rw [renL_length]
+    refine SimAt.ite (fun _ => SimAt.pure hR rfl) (fun _ => SimAt.pure hR ?_)
+    simp only [QO, newArray, ren, renL_drop]
+  | map b kvs =>
+    simp only [ren]
+    unfold objRest
+    dsimp only
+    rw [renP_length]
+    refine SimAt.ite (fun _ => SimAt.pure hR rfl) (fun _ => ?_)
+    refine SimAt.bind_read (runM_get s) (runM_get t) ?_
+    rw [hR.cfg]
+    refine SimAt.pure hR ?_
+    simp only [QO, ren, renP_drop]
+  | str x =>
+    simp only [ren]
+    unfold objRest
+    dsimp only
+    simfin
+  | func f =>
+    simp only [ren]
+    unfold objRest
+    dsimp only
+    exact SimAt.stop hR
+  | _ => all_goals exact SimAt.pure hR rfl
+
+theorem getD_ren (σ : Sh) (els : List Obj) (i : Nat) : (renL σ els).getD i .null = ren σ (els.getD i .null) := by
+  rw [List.getD_eq_getElem?_getD, List.getD_eq_getElem?_getD, renL_eq]
+  simp only [List.getElem?_map]
+  cases els[i]? <;> rfl
+
+theorem arrayIndex_ren (σ : Sh) (els : List Obj) (idx : Int64) :
+    arrayIndex (renL σ els) idx = ren σ (arrayIndex els idx) := by
+  unfold arrayIndex
+  simp only [renL_length, getD_ren, apply_ite (ren σ), ren]
+
+/-- the body of `evalIndexExpressionIdx` with the index already classified -/
+def idxBody (left index : Obj) (idx? : Option Int64) : M Obj :=
+  match left, idx? with
+  | .str s, some idx =>
+    let num : Int := s.length
+    let i : Int := if idx < 0 then num + idx.toInt else idx.toInt
+    if i < 0 || i ≥ num then pure .null else pure (.int (Int64.ofNat (s.getD i.toNat 0).toNat))
+  | .array els, some idx => pure (arrayIndex els idx)
+  | .map _ kvs, _ => do
+    match ← Grol.E.liftR (mapGet kvs index) with
+    | some v => pure v
+    | none => pure .null
+  | .null, _ => pure .null
+  | _, _ => pure (err "index operator not supported")
+
+def idxOf : Obj → Option Int64
+  | .null => some 0
+  | o => int64Value o
+
+theorem indexIdx_eq (left index : Obj) : indexIdx left index = idxBody left index (idxOf index) := rfl
+
+theorem idxOf_ren (σ : Sh) (o : Obj) : idxOf (ren σ o) = idxOf o := by cases o <;> rfl
+
+theorem sim_indexIdx {σ : Sh} {s t : St} (hR : StR σ s t) (left index : Obj) :
+    SimAt σ (indexIdx (ren σ left) (ren σ index)) (indexIdx left index) s t (QO σ) := by
+  rw [indexIdx_eq, indexIdx_eq, idxOf_ren]
+  generalize idxOf index = idx?
+  unfold idxBody
+  cases left with
+  | str x =>
+    simp only [ren]
+    cases idx? with
+    | none => exact SimAt.pure hR rfl
+    | some idx => dsimp only; simfin
+  | array els =>
+    simp only [ren]
+    cases idx? with
+    | none => exact SimAt.pure hR rfl
+    | some idx => exact SimAt.pure hR (arrayIndex_ren σ els idx)
+  | map b kvs =>
+    simp only [ren]
+    have : SimAt σ (do
+            let __do_lift ← Grol.E.liftR (mapGet (renP σ kvs) (ren σ index))
+            match __do_lift with
+              | some v => pure v
+              | none => pure Obj.null)
+          (do
+            let __do_lift ← Grol.E.liftR (mapGet kvs index)
+            match __do_lift with
+              | some v => pure v
+              | none => pure Obj.null) s t (QO σ) := by
+      rw [mapGet_ren]
+      refine SimAt.bind (Q := fun a b => a = b.map (ren σ))
+        (SimAt.liftR hR (RelR.of_eq (f := Option.map (ren σ)) rfl (fun _ => rfl))) ?_
+      rintro _ r s' t' hR' rfl
+      cases r <;> exact SimAt.pure hR' rfl
+    cases idx? <;> exact this
+  | null => cases idx? <;> exact SimAt.pure hR rfl
+  | _ => all_goals (cases idx? <;> exact SimAt.pure hR rfl)
+
+theorem evalPrefixOp_ren (σ : Sh) (op : String) (r : Obj) :
+    evalPrefixOp op (ren σ r) = ren σ (evalPrefixOp op r) := by
+  unfold evalPrefixOp
+  split
+  · rfl
+  · cases r <;> rfl
+  · cases r <;> rfl
+  · rw [int64Value_ren]; cases int64Value r <;> rfl
+  · rw [int64Value_ren]; cases int64Value r <;> rfl
+  · rfl
+  · rfl
+
+theorem incrValue_ren (σ : Sh) (v : Obj) (a : Int64) :
+    incrValue (ren σ v) a = (incrValue v a).map (ren σ) := by
+  cases v <;> rfl
+
 end Grol.R
